@@ -66,14 +66,13 @@ HARNESSES = [
               "var_name", "code", "hash"]
 ]
 HARNESSES += [
-    H(f"c10_{f}_b{b}", ["C10"], weight=10 + 10 * b, timeout=1500,
-      allow_unreachable_w=True)
-    for f in ["new", "to", "from"] for b in range(0, 6)
+    H(f"c10_{f}_n4", ["C10"], weight=80, timeout=1500) for f in ["new", "to", "from"]
 ] + [
-    H("c10_lsp_passthrough", ["C10"], weight=30, stubs=2),
+    H("c10_wrappers_concrete", ["C10"], weight=20),
+    H("c10_lsp_passthrough", ["C10"], weight=40, stubs=2),
 ] + [
-    H(f"c10_{f}_b{b}", ["C10"], tier="thorough", weight=300, timeout=7200, mem_gb=30, allow_unreachable_w=True)
-    for f in ["new", "to", "from"] for b in (6, 7, 8)
+    H(f"c10_{f}_n6", ["C10"], tier="thorough", weight=300, timeout=7200, mem_gb=30)
+    for f in ["new", "to", "from"]
 ]
 HARNESSES += [
     H(f"c15c01c02_pp_{n}_q", ["C15", "C01", "C02"], weight=15,
@@ -98,6 +97,16 @@ def plan_for(prop, tier):
     return out
 
 PROP_META = {
+    "C10": {
+        "bounds": "every text of <= 4 symbols (thorough: 6) over {a, space, LF, CR, U+00E9, U+20AC, U+1F600, FF, "
+                  "U+2028} (<= 16 / 24 bytes), every char-boundary offset, every (line, column) up to one "
+                  "past the extremes",
+        "outside": "longer texts; offsets strictly inside a CR LF pair and columns inside a surrogate pair are "
+                   "only checked for absence of panics; LineIndex's String/Vec fields (the struct wrappers are "
+                   "checked on one concrete text; Vec::push/String::from trusted)",
+        "assumptions": ["LineIndex methods are one-line wrappers of the free functions that are verified",
+                        "lsp to_proto/from_proto verified as pass-through with LineIndex methods stubbed by recorders"],
+    },
     "C14": {
         "bounds": "one lexer step on every ASCII text of <= 6 bytes (block comments/#: 8, code: 7); "
                   "unwinding assertions on",
